@@ -345,14 +345,55 @@ def min_rules(ctx):
         oks = oks and bi in maxr and is_min_val
     ctx.check(oks and every_other_path_passes([w[0] for w in sw]), R + '/sense-becomes-minimize', 'T-CONST', b.name, 'sense is not set to Minimize on every path of a maximisation problem', b.site())
     oko = bool(ow); neg_impls = set()
-    for bi, fld, op, ex in ow:
-        negs = function_negations(ex)
-        # exactly one negation, of what the getter `objective()` returns (owned, borrowed, cloned: the conversions are transparent)
-        oko = oko and (ex[0] == 'agg' and ex[1].endswith('Option::Some') and len(negs) == 1 and T.expr_has_call(negs[0][1], 'objective')
-                       and not [x for x in T.expr_walk(ex) if x[0] == 'call' and x[1] in ('neg', 'mul', 'sub', 'div', 'add') and x is not negs[0][0]] and bi in maxr)
+    def one_negation_of(e, source_ok):
+        # exactly one negation, of the objective (owned, borrowed, cloned: the conversions are transparent), nothing else computed
+        negs = function_negations(e)
+        ok = len(negs) == 1 and source_ok(negs[0][1]) and not [x for x in T.expr_walk(e) if x[0] == 'call' and x[1] in ('neg', 'mul', 'sub', 'div', 'add') and x is not negs[0][0]]
         for n, arg in negs:
             c = [x for x in b.calls if x.bb == n[4]]
             if c and n[1] == 'neg': neg_impls.add(c[0].path)
+        return ok
+    via_getter = lambda a: T.expr_has_call(a, 'objective')
+    via_field = lambda a: any(f == 'objective' and (o == INST or o.endswith('::' + INST)) for o, f in T.expr_fields(a)) and not T.expr_calls(T.strip_wrappers(a))
+    is_zero = lambda a: a[0] == 'call' and a[1] == 'zero' and bool(re.search(r'Zero for v1::Function>::zero$|v1::Function>::zero$', a[2])) and not a[3]
+    def branches_of(e):
+        # a value assigned in several branches (`match` / `if let` as an expression): one expression per assignment
+        if e[0] in ('local', 'place') and not (e[0] == 'place' and e[2]) and e[1] > b.argc and len(b.defs_of(e[1])) > 1:
+            out = []
+            for k, b2, d in b.defs_of(e[1]):
+                if k == 'call':
+                    c = [x for x in b.calls if x.bb == b2][0]
+                    out.append((b2, ('call', c.item, c.name, [T.expr(b, a, depth=12) for a in c.args], b2)))
+                elif not d['dst']['p']: out.append((b2, T._rv_expr(b, d['rv'])))
+            return out
+        return None
+    for bi, fld, op, ex in ow:
+        # the getter written out at the use site, the negation distributed over its arms:
+        #   Some(match &self.objective { Some(o) => -o, None => -Function::zero() })  /  if let Some(o) = &self.objective { Some(-o) } else { Some(-Function::zero()) }
+        tops = branches_of(ex) or [(bi, ex)]
+        good = bi in maxr and all(e[0] == 'agg' and e[1].endswith('Option::Some') and len(e) > 2 and e[2] for _, e in tops)
+        alts = None
+        if good:
+            expanded = []
+            for b2, e in tops:
+                inner = branches_of(e[2][0])
+                expanded += inner if inner else [(b2, e[2][0])]
+            if len(expanded) > 1: alts = expanded
+        if alts is None:
+            oko = oko and good and one_negation_of(ex, via_getter)
+        else:
+            tests = option_field_tests(b, INST, 'objective')
+            some_only = set(); none_only = set()
+            for sb, st_, nt_ in tests:
+                rs_, rn_ = T.reach_cp(b, [st_], stop={sb}), T.reach_cp(b, [nt_], stop={sb})
+                some_only |= rs_ - rn_; none_only |= rn_ - rs_
+            kinds = set()
+            for b2, e in alts:
+                if b2 in some_only and one_negation_of(e, via_field): kinds.add('payload')
+                elif b2 in none_only and one_negation_of(e, is_zero): kinds.add('zero')
+                elif one_negation_of(e, via_getter): kinds.add('getter')
+                else: kinds.add('other')
+            oko = oko and good and 'other' not in kinds and (kinds == {'payload', 'zero'} or kinds == {'getter'})
     ctx.check(oko and every_other_path_passes([w[0] for w in ow]) and at_most_once([w[0] for w in ow]), R + '/objective-negated-once', 'T-BRANCHFX', b.name,
               'objective is not replaced by Some(-objective()) exactly once on the maximisation path', b.site())
     writes_only(ctx, R + '/only-sense-and-objective', b, {'sense', 'objective'})
@@ -860,27 +901,54 @@ def lookup_rules(ctx):
         e = T.expr(b, lo[0].args[0], depth=14)          # self.entries itself, not something reached through another loop's item
         return any(f == 'entries' for a, f in T.expr_fields(e)) and not any(x[1] == 'next' for x in T.expr_calls(e))
     loops = [lo for lo in T.for_loops(b) if over_entries(lo)]
-    ctx.check(len(loops) == 1, R + '/entries-loop', 'T-LOOPMUST', b.name, 'no (single) loop over self.entries', b.site())
-    if len(loops) != 1: return
-    lo = loops[0]; nxt, header, some_bb, none_bb, blocks = lo
+    # the same relation {(id, e.value) | e in entries, id in e.ids} through the existing accessor: a loop over `self.iter()` pairs
+    def over_pairs(lo):
+        e = T.expr(b, lo[0].args[0], depth=14)
+        return any(x[1] == 'iter' and x[2].endswith('SampledValues>::iter') for x in T.expr_calls(e)) and not any(x[1] == 'next' for x in T.expr_calls(e))
+    pair_loops = [lo for lo in T.for_loops(b) if over_pairs(lo)] if not loops else []
+    pairs = len(pair_loops) == 1
+    ctx.check(len(loops) == 1 or pairs, R + '/entries-loop', 'T-LOOPMUST', b.name, 'no (single) loop over self.entries or over the (id, value) pairs of self.iter()', b.site())
+    if len(loops) != 1 and not pairs: return
+    lo = pair_loops[0] if pairs else loops[0]; nxt, header, some_bb, none_bb, blocks = lo
     site = b.site(nxt.bb)
     it = T.expr(b, nxt.args[0], depth=14)
     restr = sorted({x[1] for x in T.expr_calls(it) if x[1] in RESTRICTING or x[1] in ('rev',)})
     ctx.check(not restr, R + '/every-entry', 'T-LOOPMUST', b.name, 'the entries are restricted / reordered by %s' % restr, site)
+    if pairs:
+        # the accessor really yields (id, &entry.value) for every id of every entry
+        ib = ctx.F.one('v1::SampledValues', 'iter')
+        okp = False
+        if ib is not None:
+            ctx.fn(ib)
+            irs = ctx.S.backslice(ib, [0])
+            shape = irs.has_field('v1::SampledValues', 'entries') and irs.has_field(ENT, 'ids') and not {x for x in irs.calls if re.search(r'Iterator>::(%s)(::<.*>)?$' % '|'.join(RESTRICTING + ('rev',)), x)}
+            tup = False
+            for cb in cone_of(ctx, ib):
+                for k, bi, d in cb.defs_of(0):
+                    if k == 'stmt' and not d['dst']['p'] and d['rv']['k'] == 'agg' and d['rv']['adt'] == 'tuple' and len(d['rv']['ops']) == 2:
+                        e0 = T.strip_wrappers(T.expr(cb, d['rv']['ops'][0])); e1 = T.expr(cb, d['rv']['ops'][1])
+                        tup = tup or (e0[0] == 'place' and e0[1] == 2 and not e0[2] and [f for a, f in T.expr_fields(e1) if a.endswith('SampledValuesEntry')][-1:] == ['value'])
+            okp = shape and tup
+        ctx.check(okp, R + '/pairs-accessor', 'T-CARRY', b.name, 'SampledValues::iter does not yield (id, &entry.value) for every id of every entry', site)
     # ---- membership tests of the id in *this* entry's ids
     def of_item_ids(op):
         e = T.expr(b, op, depth=14)
         return any(f == 'ids' for a, f in T.expr_fields(e)) and any(x[0] == 'call' and len(x) > 4 and x[4] == nxt.bb for x in T.expr_walk(e))
     def is_key(op):
         s_ = ctx.S.slice_operand(b, op)
-        return 2 in s_.params and not s_.has_field(ENT, 'ids')
+        return 2 in s_.params and not s_.has_field(ENT, 'ids') and nxt not in s_.call_objs
     a_call = {}; a_stmt = {}
     for c in b.calls:
-        if c.item in MEMBER_CALLS and len(c.args) == 2 and re.search(r'(\[u64\]|Vec::<u64>|Vec<u64>)', c.name) and of_item_ids(c.args[0]) and is_key(c.args[1]):
+        if not pairs and c.item in MEMBER_CALLS and len(c.args) == 2 and re.search(r'(\[u64\]|Vec::<u64>|Vec<u64>)', c.name) and of_item_ids(c.args[0]) and is_key(c.args[1]):
             a_call[c.bb] = None
     for bi, st in b.stmts():
         rv = st['rv']
         if rv['k'] == 'bin' and rv['op'] in ('Eq', 'Ne') and not st['dst']['p']:
+            if pairs:
+                # pair.0 == id
+                for ox, oy in ((rv['ops'][0], rv['ops'][1]), (rv['ops'][1], rv['ops'][0])):
+                    if item_fields(b, lo, ox) == ['0'] and is_key(oy): a_stmt[id(st)] = (rv['op'] == 'Ne'); break
+                continue
             sl = [ctx.S.slice_operand(b, o) for o in rv['ops']]
             for x, y, oy in ((sl[0], sl[1], rv['ops'][1]), (sl[1], sl[0], rv['ops'][0])):
                 if x.has_field(ENT, 'ids') and nxt in x.call_objs and is_key(oy): a_stmt[id(st)] = (rv['op'] == 'Ne'); break
@@ -932,7 +1000,13 @@ def lookup_rules(ctx):
     ctx.check(not probs, R + '/present-is-found', 'T-BRANCHFX', b.name, '; '.join(probs), site)
     # ---- what is returned is that entry's value
     rs = ctx.S.backslice(b, [0])
-    ctx.check(rs.has_field(ENT, 'value') and nxt in rs.call_objs, R + '/returns-value', 'T-CARRY', b.name,
+    if pairs:
+        # pair.1; the id (pair.0) may only come in through the flag of `flag.then_some(*value)`
+        then_vals = [c.args[1] for c in b.calls if c.bb in cond_sites]
+        is_value = ('tuple', '1') in rs.fields and (all(item_fields(b, lo, o) == ['1'] for o in then_vals) if then_vals else ('tuple', '0') not in rs.fields)
+    else:
+        is_value = rs.has_field(ENT, 'value')
+    ctx.check(is_value and nxt in rs.call_objs, R + '/returns-value', 'T-CARRY', b.name,
               'the result is not the `value` of the entry found', site)
 
 
@@ -984,7 +1058,12 @@ def legacy_rules(ctx):
 RELIES_ON = {'C07': ['C07.history/field/ommx.v1.SampleSet#', 'C07.history/name/ommx.v1.SampleSet', 'C07.rust/field/ommx.v1.SampleSet', 'C07.python/field/ommx.v1.SampleSet',
                      'C07.history/name/ommx.v1.SampledValues', 'C07.history/name/ommx.v1.SampledConstraint', 'C07.history/name/ommx.v1.SampledDecisionVariable'],
              # objectives and feasibility flags are read through the compressed-value lookup (seed C15-6 broke it)
-             'C06': ['C06.compress']}
+             'C06': ['C06.compress'],
+             # the negation of the objective goes through the scaling kernels (`f * -1.0`): Neg / Mul<f64> of Function and of the three
+             # polynomial types (seed C15-11 broke Linear * f64; the rule for it belongs to C02's kernel family)
+             'C02': ['C02.kernel/Linear*f64', 'C02.kernel/Quadratic*f64', 'C02.kernel/Polynomial*f64', 'C02.branches/Quadratic_Mul_f64']
+                    + ['C02.%s/%s%s' % (fam, ty, op) for fam in ('deleg', 'table') for ty in ('v1::Function', 'v1::Linear', 'v1::Quadratic', 'v1::Polynomial') for op in ('_Neg_', '_Mul_f64')]
+                    + ['C02.%s/&%s_Neg_' % (fam, ty) for fam in ('deleg', 'table') for ty in ('v1::Function', 'v1::Linear', 'v1::Quadratic', 'v1::Polynomial')]}
 
 
 def check(ctx):
